@@ -859,6 +859,26 @@ def c17_pagemul(ctx, seqrun, stats, divs):
     if not m:
         ctx.violation('the vmem harness does not report the page size', out[-1500:], no_input=True); return
     page = int(m.group(1))
+    # ownership of the supplied data: a rejected length destroys the items handed over exactly once; data whose first and last items
+    # are all-zero is held completely and destroyed once
+    for n, pan, left in re.findall(r'reject (\d+) panicked=(\w+) left=(-?\d+)', out):
+        if pan != 'true' or left != '0':
+            ctx.violation(f'vmem from(Vec) of {n} owned items (not a whole number of pages): ' +
+                          ('the construction is not rejected' if pan != 'true' else f'{left} of the items handed over were never destroyed (or destroyed twice) after the rejected construction'),
+                          f'## replay: .build/cargo-vmem/debug/seqrun --pagemul 1   (line `reject {n} ...`)\n## {out[:600]}\n'); return
+    sp = re.search(r'sparse n=(\d+) len=(\d+) live=(\d+) refs=(\d+) left=(-?\d+)', out)
+    spp = re.search(r'sparseplain want=(\d+) got=(\d+)', out)
+    if not sp or not spp or not re.search(r'reject ', out):
+        ctx.violation('the vmem harness does not report the ownership probes', out[-1500:], no_input=True); return
+    n_, len_, live_, refs_, left_ = [int(x) for x in sp.groups()]
+    if len_ != n_ or live_ != n_ - 2 or refs_ != n_ - 2 or left_ != 0:
+        ctx.violation(f'vmem from(Vec) of {n_} items whose first and last are the all-zero pattern and the rest live: the buffer shows {live_} live items '
+                      f'(expected {n_ - 2}), holds {refs_} of them, and {left_} were not destroyed exactly once after the drop',
+                      f'## replay: .build/cargo-vmem/debug/seqrun --pagemul 1   (line `sparse ...`)\n## {sp.group(0)}\n'); return
+    if spp.group(1) != spp.group(2):
+        ctx.violation(f'vmem from(Vec<u64>) whose first and last items are 0: the buffer does not hold the supplied data (sum {spp.group(2)} instead of {spp.group(1)})',
+                      f'## replay: .build/cargo-vmem/debug/seqrun --pagemul 1   (line `sparseplain ...`)\n'); return
+    ctx.notes['vmem_ownership_probes'] = 'rejected lengths 1, 3, 7 (items destroyed once); contents with all-zero first / last item held and destroyed once'
     rnd = random.Random(int(ctx.seed))
     ns = sorted(set([1, 2, page - 1, page, page + 1, 2 * page - 1, 2 * page, 2 * page + 1, 3 * page, 3 * page + 1] +
                     [rnd.randrange(1, 3 * page + 2) for _ in range(12 if ctx.tier == 'quick' else 120)]))
